@@ -129,6 +129,16 @@ impl Chk<'_> {
         }
         self.ev.add("correct_buffers", 1);
         self.ev.count("window_layout", lay.class());
+        let case = self.case;
+        self.ev.sample(|| {
+            J::obj()
+                .set("case", case)
+                .set("call", what)
+                .set("required_shape", J::arr(want.to_vec()))
+                .set("window_layout", format!("{:?}", lay))
+                .set("enclosing_allocation_shape", J::arr(m.base.shape().to_vec()))
+                .set("outcome", o.tag())
+        });
         let slack = lay.pad_lo.iter().zip(&lay.pad_hi).any(|(a, b)| *a > 0 && *b > 0);
         if slack {
             self.ev.add("windows_with_leading_and_trailing_slack", 1);
